@@ -754,6 +754,21 @@ def kernel_case(algo, m, p, y, htab, i, j):
     return fails, x.tolist(), y2, None if hv is None else hv.tolist()
 
 
+def _find_raise(algo, m, ub):
+    """First (tour, move) from a start state whose kernel call raises."""
+    n = len(m)
+    moves = M.legal_moves(n)
+    for r, p in enumerate(itertools.permutations(range(n))):
+        y = M.tour_length_exact(m, p)
+        for mv, (i, j) in enumerate(moves):
+            fails = kernel_case(algo, m, list(p), y,
+                                None if algo == "ea" else [0] * (ub + 1),
+                                i, j)[0]
+            if 6 in fails:
+                return [r, mv, y, 0]
+    return None
+
+
 def _legal(n):
     return np.array(M.legal_moves(n), np.int64)
 
@@ -780,16 +795,26 @@ def _kernel_job(a):
         dts[str(dist.dtype)] = dts.get(str(dist.dtype), 0) + 1
         d64 = np.array(m, np.int64)
         bad = np.full((7, 4), -1, np.int64)
-        if algo == "ea":
-            d["ea_closure"](dist, d64, perms, moves, res, bad, oc)
-            badh = None
-        else:
-            ub = int(inst.tour_length_upper_bound)
-            pad = max(64, 2 * int(d64.max()) + 8)
-            cap = min(len(moves) ** depth, 200000)
-            badh = np.zeros((7, ub + 1), np.int32)
-            d["fea_bfs"](dist, d64, perms, moves, ub, depth, 0, len(perms),
-                         pad, cap, res, bad, badh, oc)
+        ub = int(inst.tour_length_upper_bound)
+        badh = None if algo == "ea" else np.zeros((7, ub + 1), np.int32)
+        try:
+            if algo == "ea":
+                d["ea_closure"](dist, d64, perms, moves, res, bad, oc)
+            else:
+                pad = max(64, 2 * int(d64.max()) + 8)
+                cap = min(len(moves) ** depth, 200000)
+                d["fea_bfs"](dist, d64, perms, moves, ub, depth, 0,
+                             len(perms), pad, cap, res, bad, badh, oc)
+        except Exception as ex:  # noqa
+            # numba cannot catch an exception raised inside a kernel that is
+            # inlined into the driver: locate the raising call from Python
+            hit = _find_raise(algo, m, ub)
+            if hit is None:
+                raise HarnessError(
+                    f"driver raised {type(ex).__name__}: {ex} on matrix "
+                    f"{m} but no single kernel call from a start state "
+                    "does") from ex
+            bad[6, :] = hit
         for kind in range(7):
             if bad[kind, 0] >= 0:
                 mv = int(bad[kind, 1])
@@ -910,15 +935,22 @@ def _warm(fams):
             moves = _legal(n)
             d64 = np.array(m, np.int64)
             ub = int(inst.tour_length_upper_bound)
-            d["ea_closure"](dist, d64, perms, moves, np.zeros(8, np.int64),
-                            np.full((7, 4), -1, np.int64),
-                            np.zeros((2, 2, 4), np.int64))
-            if ub < 100000:
-                d["fea_bfs"](dist, d64, perms, moves, ub, 1, 0, 1, 64, 16,
-                             np.zeros(8, np.int64),
-                             np.full((7, 4), -1, np.int64),
-                             np.zeros((7, ub + 1), np.int32),
-                             np.zeros((2, 2, 4), np.int64))
+            try:
+                d["ea_closure"](dist, d64, perms, moves,
+                                np.zeros(8, np.int64),
+                                np.full((7, 4), -1, np.int64),
+                                np.zeros((2, 2, 4), np.int64))
+            except Exception:  # noqa  (reported by the exploration)
+                pass
+            try:
+                if ub < 100000:
+                    d["fea_bfs"](dist, d64, perms, moves, ub, 1, 0, 1, 64,
+                                 16, np.zeros(8, np.int64),
+                                 np.full((7, 4), -1, np.int64),
+                                 np.zeros((7, ub + 1), np.int32),
+                                 np.zeros((2, 2, 4), np.int64))
+            except Exception:  # noqa
+                pass
 
 
 def run(ctx: Ctx) -> None:
